@@ -1,5 +1,5 @@
 (* C06 - Primary error = furthest failure, with merged expectations and a truthful span. *)
-From Chum Require Import Corollaries.
+From Chum Require Import Corollaries Furthest.
 
 (* After any run, successful or failing, the pending (primary) error of the machine is the
    register computed by the specification: take/restore dances of try_map, labelled, map_err,
@@ -18,6 +18,17 @@ Theorem C06_last_error_is_register :
       sem K toks spn n (ThenIgnore g End) env0 0 None = Some (None, a') /\
       (forall q e, a' = Some (q, e) -> prim = e).
 Proof. exact run_top_fail. Qed.
+
+(* Furthest failure, never earlier: for every error type that carries a position and every grammar
+   without recover_with (which by design consumes the pending error), every sub-parse only ever moves
+   the pending error forward, and a sub-parse that fails at p leaves it at or beyond p.  So the error
+   finally reported lies at or beyond every position at which any attempted alternative failed. *)
+Theorem C06_pending_error_only_moves_forward :
+  forall K toks spn, is_zst K = false ->
+  forall n g ctx p a o a', norec g = true -> envok ctx -> p <= length toks ->
+    sem K toks spn n g ctx p a = Some (o, a') ->
+    rle a a' /\ (o = None -> rge a' p).
+Proof. exact sem_mn. Qed.
 
 (* a user-supplied error (try_map) at the failure position is preserved, superseding the
    rejected sub-parse's own pending error, and merged into what earlier alternatives left *)
@@ -39,5 +50,6 @@ Example C06_F2_refuted :
 Proof. split; vm_compute; reflexivity. Qed.
 
 Print Assumptions C06_pending_error_is_specified.
+Print Assumptions C06_pending_error_only_moves_forward.
 Print Assumptions C06_last_error_is_register.
 Print Assumptions C06_try_map_error_preserved.
